@@ -726,7 +726,10 @@ pub fn operation_modulus(left: &Data, right: &Data) -> Data {
 
 /// Implements a "<" (less) operation on Data items.
 pub fn operation_less(left: &crate::datamodel::Data, right: &crate::datamodel::Data) -> crate::datamodel::Data {
-    if left.is_numeric() && right.is_numeric() {
+    if let (Data::Integer(l), Data::Integer(r)) = (left, right) {
+        // Two Integers are compared as integers: the detour over f64 is wrong beyond 2^53.
+        Data::Boolean(l < r)
+    } else if left.is_numeric() && right.is_numeric() {
         Data::Boolean(left.as_number() < right.as_number())
     } else {
         match (left, right) {
@@ -744,7 +747,10 @@ pub fn operation_less(left: &crate::datamodel::Data, right: &crate::datamodel::D
 
 /// Implements a "<=" (less or equal) operation on Data items.
 pub fn operation_less_equal(left: &crate::datamodel::Data, right: &crate::datamodel::Data) -> crate::datamodel::Data {
-    if left.is_numeric() && right.is_numeric() {
+    if let (Data::Integer(l), Data::Integer(r)) = (left, right) {
+        // Two Integers are compared as integers: the detour over f64 is wrong beyond 2^53.
+        Data::Boolean(l <= r)
+    } else if left.is_numeric() && right.is_numeric() {
         Data::Boolean(left.as_number() <= right.as_number())
     } else {
         match (left, right) {
@@ -762,7 +768,10 @@ pub fn operation_less_equal(left: &crate::datamodel::Data, right: &crate::datamo
 
 /// Implements a ">" (greater) operation on Data items.
 pub fn operation_greater(left: &crate::datamodel::Data, right: &crate::datamodel::Data) -> crate::datamodel::Data {
-    if left.is_numeric() && right.is_numeric() {
+    if let (Data::Integer(l), Data::Integer(r)) = (left, right) {
+        // Two Integers are compared as integers: the detour over f64 is wrong beyond 2^53.
+        Data::Boolean(l > r)
+    } else if left.is_numeric() && right.is_numeric() {
         Data::Boolean(left.as_number() > right.as_number())
     } else {
         match (left, right) {
@@ -776,7 +785,10 @@ pub fn operation_greater(left: &crate::datamodel::Data, right: &crate::datamodel
 
 /// Implements a ">=" (greater or equal) operation on Data items.
 pub fn operation_greater_equal(left: &Data, right: &Data) -> Data {
-    if left.is_numeric() && right.is_numeric() {
+    if let (Data::Integer(l), Data::Integer(r)) = (left, right) {
+        // Two Integers are compared as integers: the detour over f64 is wrong beyond 2^53.
+        Data::Boolean(l >= r)
+    } else if left.is_numeric() && right.is_numeric() {
         Data::Boolean(left.as_number() >= right.as_number())
     } else {
         match (left, right) {
